@@ -81,6 +81,46 @@ def _all_functions(tree, prefix):
     yield from rec(tree.body, prefix)
 
 
+def _is_parallel_assign(n):
+    return isinstance(n, ast.Assign) and len(n.targets) == 1 and isinstance(n.targets[0], ast.Tuple) and \
+        isinstance(n.value, ast.Tuple) and len(n.targets[0].elts) == len(n.value.elts) and \
+        not any(isinstance(e, ast.Starred) for e in n.targets[0].elts + n.value.elts)
+
+
+def _split_parallel_assigns(fn, ref_fps, stats):
+    """N6: `a, b = x, y` that the reference did not have becomes `a = x; b = y` when no target is read by a later value
+    (so the sequential order computes the same)"""
+    def walk_block(owner):
+        for nm in ("body", "orelse", "finalbody"):
+            blk = getattr(owner, nm, None)
+            if not (isinstance(blk, list) and blk and isinstance(blk[0], ast.stmt)):
+                continue
+            i = 0
+            while i < len(blk):
+                s = blk[i]
+                if _is_parallel_assign(s) and comp_fingerprint(s) not in ref_fps:
+                    tg, vs = s.targets[0].elts, s.value.elts
+                    ok = True
+                    for k, t in enumerate(tg):
+                        tt = ast.unparse(t)
+                        for v in vs[k + 1:]:
+                            if any(ast.unparse(x) == tt for x in ast.walk(v)):
+                                ok = False
+                    if ok:
+                        rep = [_loc(ast.copy_location(ast.Assign(targets=[t], value=v), s), s) for t, v in zip(tg, vs)]
+                        blk[i:i + 1] = rep
+                        stats["split_parallel_assignments"] = stats.get("split_parallel_assignments", 0) + 1
+                        i += len(rep)
+                        continue
+                if not isinstance(s, (ast.FunctionDef, ast.AsyncFunctionDef, ast.ClassDef)):
+                    walk_block(s)
+                    if isinstance(s, ast.Try):
+                        for hd in s.handlers:
+                            walk_block(hd)
+                i += 1
+    walk_block(fn)
+
+
 def _empty_inits(fn):
     """names that the function binds to an empty container (`x = []`, `x = OrderedDict()`): containers filled by loops"""
     out = set()
@@ -97,13 +137,16 @@ def _empty_inits(fn):
 def reference_facts(tree, modname):
     """facts recorded from the reference tree (tools/gen_canon.py)"""
     _strip_docstrings(tree)
-    funcs, comps, digests, loopbuilt, ncomps, compbuilt = [], {}, {}, {}, {}, {}
+    funcs, comps, digests, loopbuilt, ncomps, compbuilt, parallel = [], {}, {}, {}, {}, {}, {}
     for q, fn in _all_functions(tree, modname):
         funcs.append(q)
         digests[q] = fn_digest(fn)
         lb = sorted(_empty_inits(fn))
         if lb:
             loopbuilt[q] = lb
+        pa = sorted({comp_fingerprint(n) for n in ast.walk(fn) if _is_parallel_assign(n)})
+        if pa:
+            parallel[q] = pa
         cb = sorted({n.targets[0].id for n in ast.walk(fn) if isinstance(n, ast.Assign) and len(n.targets) == 1 and
                      isinstance(n.targets[0], ast.Name) and isinstance(n.value, ast.ListComp)})
         if cb:
@@ -114,7 +157,7 @@ def reference_facts(tree, modname):
                       if isinstance(n, (ast.ListComp, ast.SetComp, ast.DictComp, ast.GeneratorExp))})
         if fps:
             comps[q] = fps
-    return {"functions": funcs, "comps": comps, "digests": digests, "loopbuilt": loopbuilt, "ncomps": ncomps, "compbuilt": compbuilt}
+    return {"functions": funcs, "comps": comps, "digests": digests, "loopbuilt": loopbuilt, "ncomps": ncomps, "compbuilt": compbuilt, "parallel": parallel}
 
 
 # ---------------------------------------------------------------------------------------------- helpers
@@ -555,7 +598,8 @@ def _inline_helpers(tree, modname, ref_funcs, stats):
                 still = True
             if isinstance(n, ast.Attribute) and n.attr == name and h.cls is not None and not _inside(n, h.fn, tree):
                 still = True
-        if not still and getattr(h, "inlined", 0) and h.fn in h.container:
+        # only private helpers disappear: a public function / method may be used from other modules
+        if not still and getattr(h, "inlined", 0) and h.fn in h.container and h.fn.name.startswith("_"):
             h.container.remove(h.fn)
             stats["removed_helpers"] = stats.get("removed_helpers", 0) + 1
             if h.cls is not None and not h.cls.body:
@@ -1341,6 +1385,7 @@ def apply(modname, tree):
     for q, fn in list(_all_functions(tree, modname)):
         if q not in ref_funcs or ref.get("digests", {}).get(q) == fn_digest(fn):
             continue          # new function (analysed as written) / unchanged function (nothing to undo)
+        _split_parallel_assigns(fn, set(ref.get("parallel", {}).get(q, [])), stats)
         _desugar_comps(fn, set(ref.get("comps", {}).get(q, [])), stats,
                        loopbuilt=frozenset(ref.get("loopbuilt", {}).get(q, [])), ref_ncomps=ref.get("ncomps", {}).get(q, 0))
         _resugar_loops(fn, frozenset(ref.get("compbuilt", {}).get(q, [])),
